@@ -25,6 +25,8 @@ func ByNames(names []string) []Script {
 			out = append(out, &Staking{Boundary: true})
 		case "ons":
 			out = append(out, &ONS{Tag: "o"})
+		case "bid":
+			out = append(out, &Bid{Tag: "b"})
 		}
 	}
 	return out
